@@ -139,7 +139,17 @@ def ham_programs(seed, tids, quick=True):
             prog = {"driver": "hams", "tid": tids(), "sym": sym, "model": model, "sites": sites, "edges": ed,
                     "t": [rng.choice([1, 2, 3, 7]) for _ in ed], "V": [rng.choice([0, 5, 7]) for _ in ed],
                     "U": [60 * rng.randint(1, 4) for _ in sites], "mu": [60 * rng.randint(0, 3) for _ in sites], "form": form}
-            if rng.random() < 0.2:
+            multi = rng.random() < 0.25
+            if multi:
+                # a second bond between two already connected sites, listed in the opposite orientation (what periodic
+                # boundaries along a direction of length two produce): degrees count BONDS, not neighbours
+                a, b = rng.choice(ed)
+                if [b, a] not in ed:
+                    prog["multi"] = True
+                    ed.append([b, a])
+                    prog["t"].append(2)
+                    prog["V"].append(5)
+            if multi or rng.random() < 0.2:
                 # scalar coefficients everywhere
                 prog["form"] = {"t": "scalar", "V": "scalar", "U": "scalar", "mu": "scalar"}
                 prog["t"] = [2] * len(ed)
